@@ -121,6 +121,17 @@ func VerifCache() {
 		v, in := m[key]
 		verifrt.Assert(in == has && (!has || v == okVal), "the cache holds a key iff a fetch for it succeeded, with that value")
 	}
+	// the map handed out is a snapshot: later lookups do not show in it, and edits to it do not
+	// reach the cache
+	before := len(m)
+	m["snapshot-only"] = -1
+	if _, err := rc.Get("fresh", func() (int, error) { return 7, nil }); err != nil {
+		verifrt.Fail("a lookup with a succeeding fetch succeeds")
+	}
+	_, leaked := m["fresh"]
+	verifrt.Assert(!leaked && len(m) == before+1, "a map obtained from the cache is a snapshot, unaffected by later lookups")
+	_, back := rc.GetMap()["snapshot-only"]
+	verifrt.Assert(!back, "edits to a map obtained from the cache do not reach the cache")
 	if len(fetches) > nkeys {
 		verifrt.Reach("refetched-after-failure")
 	}
